@@ -372,7 +372,12 @@ type Property struct {
 	Explanation string
 	NotDecided  string
 	Assumptions []string
-	Rules       []*Rule
+	// Manifest texts.
+	LevelText string // default: Explanation
+	LevelNote string
+	Technique string
+	DesignRef string
+	Rules     []*Rule
 	// ThoroughRules run only in the thorough tier.
 	ThoroughRules []*Rule
 }
